@@ -124,6 +124,7 @@ func run(c *fw.Ctx) {
 	for _, tn := range targets {
 		t := sut.Get(tn)
 		recs := families.MixedRecords(t, 6)
+		small := recs
 		// make sure the first records have non-empty lists / non-null values so that features bite
 		leaves := t.Schema().Leaves()
 		// row-group layouts: two row groups; three with one that has no rows
@@ -132,12 +133,24 @@ func run(c *fw.Ctx) {
 		if tn != "mini" && !c.Thorough() {
 			layouts = layouts[:1]
 		}
+		if tn == "mini" {
+			// pages of more than 64 KiB / 96 KiB / 128 KiB (two pages of 35 000 int32 ids: 140 KB each,
+			// int64 opts: 280 KB): a size-dependent read path must vet pages too
+			layouts = append(layouts, []int{70000})
+		}
 		for li, sizes := range layouts {
 			lt := ""
 			if li > 0 {
 				lt = fmt.Sprintf("|layout%v", sizes)
 			}
+			recs = small
+			if sizes[0] > 100 {
+				recs = families.DenseRecords(t, sizes[0])
+			}
 			for codec := 0; codec <= 2; codec++ {
+				if sizes[0] > 100 && codec == 2 && !c.Thorough() {
+					continue // big pages: uncompressed and snappy in quick
+				}
 				base, err := build(t, recs, sizes, codec, 0, 0, nil)
 				if err != nil {
 					panic(err)
